@@ -316,6 +316,12 @@ def c08(sc, req, path):
                 same = z3.And(post.present, pa['approver'] == req['sender'], pa['cb_denom'] == base_denom, pa['cb_amount'] == a['size'], pa['size'] == a['size'],
                               pa['owner'] == a['owner'], pa['base'] == a['base'], pa['quote'] == a['quote'], pa['price'] == a['price'], pa['id'] == a['id'])
                 yield refute('approve_records_ready', [m, z3.Not(same)])
+    if kind == 'CreateAsk':
+        # the class is assigned at creation: plain exactly when the base is the contract's base denomination, otherwise pending approval
+        for e in path.world.maps['ask']:
+            pa = ask_view(ti, e.val)
+            want = (req['base'] == base_denom) if pa['cls'] == 'Basic' else ((req['base'] != base_denom) if pa['cls'] == 'Pending' else z3.BoolVal(False))
+            yield refute('class_assigned_at_creation', [matched(e, req['id']), z3.Not(want)], cls=pa['cls'])
     # the Ready clause of Inv is re-established by every operation that keeps the ask
     for i, e in enumerate(path.world.maps['ask']):
         pa = ask_view(ti, e.val)
@@ -1286,3 +1292,16 @@ def c01_history(sc, trail):
     final = trail[-1][2].world
     yield refute('holdings_equal_owed_after_history', [net != owed(ti, final, D)], steps=len(trail))
     yield refute('holdings_never_negative', [net < 0], steps=len(trail))
+
+
+def with_inv_establishment(fn):
+    """a per-operation property decided over Inv books also checks that orders entering the book (create / approve) satisfy Inv"""
+    def g(sc, req, path):
+        yield from fn(sc, req, path)
+        if req['kind'] in ('CreateAsk', 'CreateBid', 'ApproveAsk'):
+            yield from inv_step(sc, req, path)
+    return g
+
+
+for _p in ('C02', 'C03', 'C04', 'C09'):
+    PROPS[_p] = with_inv_establishment(PROPS[_p])
